@@ -136,8 +136,23 @@ func scenarioC06(rc *RunCtx) {
 		f2.FailFile = "moved.fail"
 		rc.Inc("probe.failfile_flag_variant")
 	}
-	r2 := RunCheck(prog, RunOpt{Name: name, Dir: dir2, Flags: f2, Clock: pol2})
-	rc.Note(r2)
+	o2 := RunOpt{Name: name, Dir: dir2, Flags: f2, Clock: pol2}
+	var r2 *CheckRun
+	if t.Chance("c06.new_process", map[string]int{"quick": 4, "thorough": 20}[rc.Tier]) {
+		// the next run as it really happens: a new OS process (new pid, cold process state)
+		var err error
+		r2, err = RunCheckInChild(prog, o2, filepath.Join(rc.Dir, "child"))
+		if err != nil {
+			rc.V(viol("harness", "child-process", "%v", err))
+			return
+		}
+		rc.Inc("fault.restart_new_process")
+		rc.Inc("checks_run")
+	} else {
+		r2 = RunCheck(prog, o2)
+		rc.Note(r2)
+		rc.Inc("fault.restart_new_bubble")
+	}
 	judgeC06Rerun(rc, r1, r2, F1, variantFlag)
 }
 
